@@ -221,6 +221,13 @@ func EnableThreads(maxSched int) {}
 func Go(f func())               { f() }
 func Yield()                    {}
 
+// WaitUntil blocks the calling thread (engine thread model) until pred holds; natively it must hold.
+func WaitUntil(pred func() bool) {
+	if !pred() {
+		panic("verifrt.WaitUntil: would block in a sequential native run")
+	}
+}
+
 // ---- error values produced by the engine
 
 // RuntimeError is what the engine raises for Go runtime panics (bounds, nil, ...).
